@@ -671,7 +671,7 @@ func buildVectors(size, sections int, bloomAt func(n int) types.Bloom) (map[vkey
 }
 
 func runMatcher(m *bloombits.Matcher, begin, end uint64, fetch func(uint, uint64) []byte, d *dropper, threads, batch int) (string, []uint64) {
-	ctx, cancel := context.WithTimeout(context.Background(), 30*time.Second)
+	ctx, cancel := context.WithTimeout(context.Background(), 120*time.Second)
 	defer cancel()
 	matches := make(chan uint64, 16)
 	session, err := m.Start(ctx, begin, end, matches)
@@ -1000,6 +1000,7 @@ func (cd chainData) line() string {
 // with its receipts, commits the bloom-bits index for the attempted progress and emits the `chain` case.
 func (g *gen) materialize(cd chainData, d *dropper) (*backend, string) {
 	run := g.run
+	run.Current(fmt.Sprintf("chain %d %d %d (building)", cd.size, cd.attempted, cd.nblocks+1))
 	db := aquadb.NewMemDatabase()
 	genesis := core.GenesisBlockForTesting(db, common.Address{1}, big.NewInt(1000000))
 	chain, receipts := core.GenerateChain(context.TODO(), params.TestChainConfig, genesis, aquahash.NewFaker(), db, cd.nblocks, func(i int, bg *core.BlockGen) {
@@ -1019,6 +1020,7 @@ func (g *gen) materialize(cd chainData, d *dropper) (*backend, string) {
 			run.Violate("header-bloom", "header-bloom", fmt.Sprintf("%s block %d", cd.line(), block.NumberU64()), "header bloom != CreateBloom(receipts)")
 		}
 	}
+	run.Current(fmt.Sprintf("chain %d %d %d (indexing)", cd.size, cd.attempted, cd.nblocks+1))
 	sections := cd.attempted
 	status := "ok"
 	if sections > 0 && !commitIndex(db, uint64(cd.size), uint64(sections)) {
@@ -1044,7 +1046,7 @@ func (g *gen) query(be *backend, cd chainData, chainLine string, begin, end int6
 	as, ts := c.real()
 	var ids []uint64
 	status := hx.Safe(func() string {
-		ctx, cancel := context.WithTimeout(context.Background(), 30*time.Second)
+		ctx, cancel := context.WithTimeout(context.Background(), 120*time.Second)
 		defer cancel()
 		f := filters.New(be, begin, end, as, ts)
 		logs, err := f.Logs(ctx)
@@ -1386,7 +1388,7 @@ func main() {
 	run := hx.Start()
 	alog.Root().SetHandler(alog.DiscardHandler())
 	rng := hx.NewRng(run.Seed)
-	run.Watch(90*time.Second, 6<<30, func(cur string) string { return "watchdog:" + strings.SplitN(cur, " ", 2)[0] })
+	run.Watch(300*time.Second, 6<<30, func(cur string) string { return "watchdog:" + strings.SplitN(cur, " ", 2)[0] })
 	// item pools (fixed per seed)
 	pr := rng.Fork(1)
 	for i := 0; i < 6; i++ {
